@@ -47,7 +47,7 @@ func runC18(c *Ctx) {
 	sub := &Ctx{V1: c.V1, V2: c.V2, Tier: c.Tier, R: NewReport("tmp", c.Tier)}
 	checkD7D8(sub)
 	for _, o := range sub.R.Obls {
-		if o.Rule == "D8" {
+		if o.Rule == "D8" && !strings.HasSuffix(o.Key, "-bypass") { // accepting more never breaks C18
 			r.Check(o.OK, "U6", strings.TrimPrefix(o.Key, "D8@"), o.Site, o.Detail, o.Detail)
 		}
 	}
